@@ -3,7 +3,9 @@
    inductive grammar, and the proof that every such byte string is accepted by
    the model of util::DecodeUTF8 ([utf8_valid]).  The per-row facts are finite
    sweeps over the regenerated constants (vm_compute), lifted by range lemmas. *)
-From PP Require Import Fold.FoldDefs Fold.FoldProofs Unicode.Utf8Enc.
+From PP Require Import Fold.FoldDefs Unicode.Utf8Enc.
+(* (no dependency on Fold/FoldProofs.v: the sweeps below are expensive and must only be
+   re-run when the scanner model or its regenerated constants change) *)
 From Coq Require Import ZifyBool.
 Local Open Scope Z_scope.
 
@@ -22,6 +24,14 @@ Inductive WF : list Z -> Prop :=
 | wf_4b b0 b1 b2 b3 r : rng 241 243 b0 -> rng 128 191 b1 -> rng 128 191 b2 -> rng 128 191 b3 -> WF r ->
     WF (b0 :: b1 :: b2 :: b3 :: r)
 | wf_4c b1 b2 b3 r : rng 128 143 b1 -> rng 128 191 b2 -> rng 128 191 b3 -> WF r -> WF (244 :: b1 :: b2 :: b3 :: r).
+
+Lemma count_cps_S f bs : bs <> [] ->
+  count_cps (S f) bs =
+  match decode_utf8 bs with
+  | None => None
+  | Some (_, n) => match count_cps f (skipn (Z.to_nat n) bs) with Some k => Some (S k) | None => None end
+  end.
+Proof. destruct bs; [congruence | reflexivity]. Qed.
 
 (* ---------- ranges as lists ---------- *)
 Definition zrange (lo hi : Z) : list Z := map (fun k => lo + Z.of_nat k) (seq 0 (Z.to_nat (hi - lo + 1))).
